@@ -10,7 +10,7 @@ UTYPES = "crates/dns-resolver/src/util/types.rs"
 TRUSTED = TRUSTED_COMMON + [
     "R9 socket stand-ins: UdpSocket::send/send_to append the datagram and its destination to a ghost log, or fail, sending nothing and setting the ghost `failed` (R52: borrowed mutably for that, tokio's take `&self`); the reply channel of the UDP listener (mpsc::Sender) likewise records what is queued; TcpStream::write_all appends to a ghost byte log (or fails, leaving a prefix of it and setting the ghost `failed`), read_u16 / read_buf deliver arbitrary data, any number of octets at a time, EOF or an error at any point (ghost `prefix`, `inp`); no interleaving between awaits is modelled",
     "BytesMut::with_capacity(n) has capacity exactly n and tokio's read_buf fills a buffer that is not full at most to its capacity (it reads into BytesMut::chunk_mut(), the spare capacity): used to show a TCP message body handed to the decoder has exactly the announced length (<= 65535)",
-    "R45 (UDP): the block listen_udp_task hands to tokio::spawn for each datagram is read as `udp_request__(args, bytes, reply__, peer) -> ReplySender`, the select! arm that sends a finished reply as `udp_reply__(sock__, message, peer) -> UdpSocket` (block text verbatim; added: the `let mut` rebinding at entry, the captured value as the result); the Prometheus timer is a stand-in value; not covered: select! itself, recv_from and the copy of the datagram out of the receive buffer (`BytesMut::from(&buf[..size])`), the bounded channel between the two blocks",
+    "R45 (UDP): the block listen_udp_task hands to tokio::spawn for each datagram is read as `udp_request__(args, bytes, reply__, peer) -> ReplySender`, the select! arm that sends a finished reply as `udp_reply__(sock__, message, peer) -> UdpSocket` (block text verbatim; added: the `let mut` rebinding at entry, the captured value as the result); the Prometheus timer is a stand-in value; the select! arm that receives a datagram as `udp_received__(args, buf, size, peer, tx)` whose result is what the spawned task is given (R53: the `tokio::spawn(async move { .. })` statement is read as the tuple of its captures); not covered: select! itself, recv_from (assumed to report a size within the buffer), the bounded channel between the blocks",
     "R45: the block listen_tcp_task hands to tokio::spawn for each accepted connection is read as the body of `tcp_connection__(args, conn__, peer) -> TcpStream` (block text verbatim; added: `let mut stream = conn__;` at entry and the expression `stream` at the end, so that the contract can speak about what was written)",
     "Message::to_octets: contract assumed here (>= 12 octets, header octets as header_flags1/2, a message without records always serialises), proved in unit wire_codec under msg_names_wf (the DomainName type invariant, C16)",
     "Message::from_octets: contract assumed here, proved in unit wire_decode",
@@ -222,6 +222,19 @@ impl ReplySender {
             r is Err ==> final(self).log@ == old(self).log@ && final(self).closed@,
     { unimplemented!() }
 }
+impl Clone for ReplySender {
+    #[verifier::external_body]
+    fn clone(&self) -> (r: Self) ensures r == *self { unimplemented!() }
+}
+impl Clone for ListenArgs {
+    #[verifier::external_body]
+    fn clone(&self) -> (r: Self) ensures r == *self { unimplemented!() }
+}
+// R42: `BytesMut::from(slice)` - a buffer holding a copy of the slice
+#[verifier::external_body]
+fn shim_bytesmut_from_slice(s: &[u8]) -> (r: BytesMut)
+    ensures bmv(&r) == s@,
+{ BytesMut::from(s) }
 // the reply queued for a datagram: its ID, QR set, not truncated; a datagram flagged as a response is answered with FORMERR at most
 pub open spec fn reply_for(m: Message, b: Seq<u8>) -> bool {
     &&& b.len() >= 2 &&& m.header.id == be16(b[0], b[1]) &&& m.header.is_response &&& !m.header.is_truncated
@@ -382,6 +395,14 @@ MAIN_SPECS = {
             ==> fin.log@.len() == reply__.log@.len() + 1, // [C09:udp_every_datagram_with_an_id_that_is_not_a_response_gets_one_reply_queued]""",
         "entry": "let mut reply = reply__; // R45: the captured sender, mutable so that the stand-in can record (R52)\n" + BU,
         "anchors": [{"after_re": r"(?<=\})\s*\}\s*reply\s*\}\s*$", "at": "before", "proof": "proof { if !reply.closed@ { assert(reply.log@.drop_last() =~= reply__.log@); } }"}]},
+    "udp_received__": {"props": ["C09"], "ret": "task",
+        "contract": """    requires size <= buf@.len(),
+    ensures
+        bmv(&task.1) == buf@.take(size as int), // [C09:the_task_for_a_datagram_is_given_exactly_the_octets_received]
+        task.3 == peer, // [C09:the_task_for_a_datagram_is_given_its_senders_address]
+        task.0 == args && task.2 == tx,""",
+        "forbid": [r"BytesMut::from\("],
+        "entry": BU},
     "handle_raw_message": {"props": ["C09"],
         "contract": """    requires buf@.len() <= 0xffff, args.upstream_dns_port == configured_port(), args.forward_address is Some ==> args.forward_address->Some_0 == configured_forwarder(), forwarding_mode() == (args.forward_address is Some),
     ensures
@@ -453,6 +474,21 @@ fn shim_panic_incomplete() requires false, // [C09:server_never_panics_on_a_shor
     G.top_fn(M, "handle_raw_message", ms)
     ms["tcp_connection__"]["rewrites"] = [("R29", _r29), ("R29", r"\n\s*let response_timer = DNS_[A-Z_]+[^;]*;", "\n\n\n"), ("R29", r"\n\s*response_timer\.observe_duration\(\);", "\n"),
         ("R16", r"id\.map\(Message::make_format_error_response\)", "match id { Some(id) => Some(Message::make_format_error_response(id)), None => None }")]
+    # R45 / R53: the select! arm that receives a datagram; the task it spawns is read as the arm's result (what the task is given)
+    def _r53(txt):
+        k = txt.find("tokio::spawn(async move {")
+        if k < 0:
+            return txt, 0
+        depth, j = 0, txt.index("{", k)
+        for j in range(j, len(txt)):
+            depth += txt[j] == "{"
+            depth -= txt[j] == "}"
+            if depth == 0:
+                break
+        e = txt.index(";", j) + 1
+        return txt[:k] + "\n" * txt[k:e].count("\n") + "(args, bytes, reply, peer)" + txt[e:], 1
+    ms["udp_received__"]["rewrites"] = [("R29", _r29), ("R42", r"BytesMut::from\((&\w+\[[^\]]*\])\)", r"shim_bytesmut_from_slice(\1)"), ("R53", _r53)]
+    G.block_fn(M, "listen_udp_task", r"Ok\(\(size, peer\)\) = socket\.recv_from\(&mut buf\) => \{", "fn udp_received__(args: ListenArgs, buf: Vec<u8>, size: usize, peer: SocketAddr, tx: ReplySender) -> (ListenArgs, BytesMut, ReplySender, SocketAddr)", "udp_received__", ms)
     # R45: the block listen_udp_task hands to tokio::spawn for each datagram
     ms["udp_request__"]["rewrites"] = [("R29", r"let response_timer = DNS_RESPONSE_TIME_SECONDS\s*\.with_label_values\(&\[\"udp\"\]\)\s*\.start_timer\(\);", lambda m: "let response_timer = shim_start_timer();" + "\n" * m.group(0).count("\n")),
         ("R30", r"=> tracing::\w+!\((?:[^()]|\([^()]*\))*\)", "=> ()")]
@@ -485,6 +521,7 @@ CANARIES = [
     {"name": "tcp_partial_id_little_endian", "file": NET, "old": "                    Err(err) => {\n                        let id = if bytes.len() >= 2 {\n                            Some(u16::from_be_bytes([bytes[0], bytes[1]]))", "new": "                    Err(err) => {\n                        let id = if bytes.len() >= 2 {\n                            Some(u16::from_be_bytes([bytes[1], bytes[0]]))"},
     {"name": "tcp_short_message_passed_on_as_complete", "file": NET, "old": "            while bytes.len() < expected {", "new": "            while bytes.len() + 1 < expected {"},
     {"name": "tcp_no_formerr_for_a_short_message", "file": MAIN, "old": "                                TcpError::TooShort { id, .. } => id,", "new": "                                TcpError::TooShort { .. } => None,"},
+    {"name": "udp_task_given_the_whole_receive_buffer", "file": MAIN, "old": "                let bytes = BytesMut::from(&buf[..size]);", "new": "                let bytes = BytesMut::from(&buf[..]);"},
     {"name": "udp_reply_sent_twice", "file": MAIN, "old": "                        if let Err(error) = send_udp_bytes_to(&socket, peer, &mut serialised).await\n                        {", "new": "                        let _ = send_udp_bytes_to(&socket, peer, &mut serialised).await;\n                        if let Err(error) = send_udp_bytes_to(&socket, peer, &mut serialised).await\n                        {"},
     {"name": "udp_reply_only_when_short", "file": MAIN, "old": "                        if let Err(error) = send_udp_bytes_to(&socket, peer, &mut serialised).await\n                        {\n                            tracing::debug!(?peer, ?error, \"UDP send error\");\n                        }\n", "new": "                        if serialised.len() <= 512 {\n                        if let Err(error) = send_udp_bytes_to(&socket, peer, &mut serialised).await\n                        {\n                            tracing::debug!(?peer, ?error, \"UDP send error\");\n                        }\n                        }\n"},
     {"name": "udp_formerr_replies_not_queued", "file": MAIN, "old": "                        match reply.send((response_message, peer, response_timer)).await {\n                            Ok(_) => (),\n                            Err(error) => tracing::debug!(?peer, ?error, \"UDP send error\")\n                        }", "new": "                        if response_message.header.rcode != Rcode::FormatError {\n                        match reply.send((response_message, peer, response_timer)).await {\n                            Ok(_) => (),\n                            Err(error) => tracing::debug!(?peer, ?error, \"UDP send error\")\n                        }\n                        }"},
